@@ -373,6 +373,8 @@ def write_evidence(mod, prop_id, tier, seed, results, violations, known_hits,
             'outside_claim': getattr(mod, 'OUTSIDE', []),
             'models': getattr(mod, 'MODELS', []),
             'model_validation': val,
+            'catalogues': (sys.modules['props.fsm_common'].catalogue_summary()
+                           if 'props.fsm_common' in sys.modules else []),
             'known_findings_hit': sorted(set(k for k, _w, _s in known_hits)),
         },
         'assumptions': list(getattr(mod, 'ASSUMPTIONS', [])) + [
